@@ -128,16 +128,12 @@ Definition last_peek (log : list logitem) : option (list N) :=
 Definition strict_prefix_ok (sent : list N) (log : list logitem) : Prop :=
   match last_peek log with Some pk => pk = firstn (length pk) sent | None => True end.
 
+Definition f9_sent : list N := [0;1;2;3;4;5;6;7;8;9;10;11;12;13;14;15]%N.
+
 Lemma reader_cancel_partial_loss_refuted_lemma :
-  exists script sent,
-    sent = [0;1;2;3;4;5;6;7;8;9;10;11;12;13;14;15]%N /\
-    last_peek (run_script read_retry write_retry accept_retry (N.to_nat WBUFLEN) (N.to_nat RBUF_INIT)
-                          (N.to_nat RBUF_GROW) 238%N 1000 script) = Some [6;7;8;9;10;11;12;13;14;15]%N /\
-    ~ strict_prefix_ok sent (run_script read_retry write_retry accept_retry (N.to_nat WBUFLEN)
-                                        (N.to_nat RBUF_INIT) (N.to_nat RBUF_GROW) 238%N 1000 script).
+  last_peek f9_log = Some [6;7;8;9;10;11;12;13;14;15]%N /\ ~ strict_prefix_ok f9_sent f9_log.
 Proof.
-  exists f9_script, [0;1;2;3;4;5;6;7;8;9;10;11;12;13;14;15]%N.
   assert (E : last_peek f9_log = Some [6;7;8;9;10;11;12;13;14;15]%N) by (vm_compute; reflexivity).
-  split; [reflexivity|]. split; [exact E|].
-  unfold strict_prefix_ok. fold f9_log. rewrite E. cbn. intros H. discriminate.
+  split; [exact E|].
+  unfold strict_prefix_ok. rewrite E. unfold f9_sent. cbn [length firstn]. intros H. discriminate.
 Qed.
